@@ -314,3 +314,27 @@ def scc_bounded(prog, comp):
         return True, "; ".join(what) + "; limit(s) %s; the rest of the cycle is acyclic" % lims
     a, b = cyc
     return False, "a cycle avoids every depth guard, e.g. through %s -> %s" % (prog.fns[a].path, prog.fns[b].path)
+
+
+def rule_balanced(chk, prog, rule, crate, file_suffix, need, consequence):
+    """Every per-thread budget guard in the given file gives back exactly what it took: the counter is stored back only on the
+    success edge of the limit test (a refused request leaves it unchanged) and the token's Drop decrements it.  A guard that
+    charges first and checks afterwards leaks one unit per refusal: what the thread accepts then depends on what it refused before."""
+    n = 0
+    for k, f in sorted(prog.fns.items()):
+        if f.crate != crate or f.kind not in ("Fn", "AssocFn") or not f.file.endswith(file_suffix):
+            continue
+        if not re.search(r"option::Option<|result::Result<", f.ty(f.locals[0]["ty"])["s"]) or f.arg_count > 1:
+            continue
+        if not any(re.search(r"LocalKey::<T>::with$", c.path or "") for c in f.calls):
+            continue
+        if not any(re.search(r"cell::Cell::<T>::set$", c.path or "") for b in _bodies(prog, f) for c in b.calls):
+            continue
+        n += 1
+        ok, limit, why = verify_guard(prog, f)
+        chk.instance(rule, "%s:%s" % (f.file, f.line), "%s charges its per-thread budget only when the request is granted and its token gives it back" % f.path, ok, why)
+        if not ok:
+            chk.finding(rule, f.key, "budget-leak", "", "%s:%s" % (f.file, f.line),
+                        "%s does not provably restore its per-thread budget (%s): every refused request can consume budget for good, so %s"
+                        % (f.path, why, consequence))
+    chk.floor(rule, n, need, "per-thread budget guards in %s" % file_suffix)
